@@ -99,6 +99,15 @@ def histories():
                                ("connect", ("u0.q", "a"), {}), ("connect", ("u0.d", "o"), {}), A("n", "and"), ("connect", ("u0.q", "n"), {}), ("remove", ("u0.clk",), {}), ("remove_unloaded", (), {"inputs": True})]
     H["fill-closes-a-loop"] = [A("a", "input"), A("w", "buf"), A("g", "nand", fanin=["a", "w"], output=True), ("is_cyclic", (), {}), ("@add_blackbox", ("ft", ["d"], ["q"], "u", {"d": "g", "q": "w"}), {}),
                                ("is_cyclic", (), {}), ("@fill", ("u", "feedthrough"), {}), ("is_cyclic", (), {}), ("disconnect", ("u_q", "w"), {}), ("is_cyclic", (), {})]
+    # nodes that already carry the names the pins of an instance get when it is filled (`<inst>_<pin>`): the fill is rejected whichever
+    # pin it is, nothing is merged into the existing node; afterwards a fill under a free instance name succeeds
+    H["fill-over-nodes-named-like-its-pins"] = [A("a", "input"), A("b", "input"), A("w", "buf", output=True), A("f0_q", "not", fanin="a", output=True),
+                                                ("@add_blackbox", ("ft", ["d"], ["q"], "f0", {"d": "b", "q": "w"}), {}), ("@fill", ("f0", "feedthrough"), {}),
+                                                A("v", "buf"), A("f1_d", "and", fanin=["a", "b"]), ("@add_blackbox", ("ft", ["d"], ["q"], "f1", {"d": "a", "q": "v"}), {}), ("@fill", ("f1", "feedthrough"), {}),
+                                                ("remove", ("f0_q",), {}), ("@fill", ("f0", "feedthrough"), {}), ("fanin", ("w",), {})]
+    # self-referential arguments: the circuit as its own sub-circuit, and as the filling of one of its own blackboxes
+    H["circuit-spliced-into-itself"] = [A("a", "input"), A("b", "input"), A("g", "and", fanin=["a", "b"], output=True), ("@add_sub_self", ("u", None), {}), ("@add_sub_self", ("v", {"a": "g"}), {}), ("outputs", (), {})]
+    H["circuit-filled-into-its-own-blackbox"] = [A("a", "input"), A("o", "buf", output=True), ("@add_blackbox", ("t", ["a"], ["o"], "u", {"a": "a", "o": "o"}), {}), ("@fill_self", ("u",), {}), ("fanin", ("o",), {})]
     H["subcircuit-with-a-loop"] = [A("a", "input"), A("b", "input"), ("is_cyclic", (), {}), ("@add_sub", ("loop", "l0", {"s": "a", "r": "b"}), {}), ("is_cyclic", (), {}), ("remove", ("l0_q",), {}), ("is_cyclic", (), {})]
     H["subcircuit-connections"] = [A("a", "input"), A("b", "input"), A("t1", "buf"), A("t2", "buf", output=True), ("@add_sub", ("ha", "h0", {"x": "a", "y": "a", "c": "t1", "s": "t2"}), {}),
                                    ("@add_sub", ("ha", "h0", None), {}), ("@add_sub", ("ha", "h1", {"x": "t1", "nope": "b"}), {}), ("@add_sub", ("ha", "h2", {"x": "ghost"}), {}),
@@ -111,9 +120,10 @@ def histories():
 class Driver:
     """Applies one op to a circuit implementation (repository instance or reference)."""
 
-    def __init__(self, mk_circuit, mk_blackbox):
+    def __init__(self, mk_circuit, mk_blackbox, self_aliasing=True):
         self.mk = mk_circuit
         self.mkbb = mk_blackbox
+        self.self_aliasing = self_aliasing  # False for the reference: it is handed a copy where the repository gets the object itself
         self.c = mk_circuit("hist")
         self.bbs = {}
         self.side = None
@@ -135,6 +145,15 @@ class Driver:
             which, inst, conns = args
             child = child_with_blackbox(self.mk, self.mkbb) if which == "withbb" else {"loop": child_loop, "ha": child_ha}[which](self.mk)
             return c.add_subcircuit(child, inst, dict(conns) if conns else None)
+        if meth == "@add_sub_self":
+            # the circuit spliced into itself: "a renamed copy of sc" is a copy of the circuit as it is now (the reference gets one)
+            inst, conns = args
+            child = c if self.self_aliasing else c.copy()
+            return c.add_subcircuit(child, inst, dict(conns) if conns else None)
+        if meth == "@fill_self":
+            (inst,) = args
+            child = c if self.self_aliasing else c.copy()
+            return c.fill_blackbox(inst, child)
         if meth == "@copy_then_edit":
             d = c.copy()
             d.add("extra", "not", fanin="a", output=True)
@@ -152,7 +171,7 @@ class Driver:
 
 def run_one(name, ops, repo_pkg):
     a = Driver(repo_pkg.cg.Circuit, repo_pkg.cg.BlackBox)
-    b = Driver(RefCircuit, RefBlackBox)
+    b = Driver(RefCircuit, RefBlackBox, self_aliasing=False)
     steps = []
     for i, op in enumerate(ops):
         outs = []
